@@ -395,6 +395,25 @@ def tamper(P, T, wire, names):
                         "after bit flips of datagram #%d the receiving transport is %s" % (idx, P.dtls["B"].state),
                         dict(kind="tamper", index=idx, profile=names[0]))
             break
+    # forged traffic: the same battery in PLAINTEXT (never protected), and protected datagrams whose body was replaced by
+    # plaintext of the same kind - an attacker on the path can write anything; without the key nothing may be accepted
+    forged = [rtp_packet(i, size, ext, "A").serialize() for i, (size, ext) in enumerate([(0, False), (100, True), (1200, False)])]
+    forged += [b"".join(bytes(x) for x in c) for c in rtcp_compounds("A")]
+    forged.append(bytes(R.RtcpSrPacket(ssrc=0xCAFE0000 + ord("A"), sender_info=R.RtcpSenderInfo(1, 2, 3, 4))) +
+                  bytes(R.RtcpByePacket(sources=[0xCAFE0000 + ord("A")])))
+    for dg in wire["A"]:
+        if dg and 127 < dg[0] < 192:
+            hdr = 8 if R.is_rtcp(dg) else 12
+            forged.append(dg[:hdr] + b"".join(bytes(x) for x in rtcp_compounds("A")[0])[hdr:] if R.is_rtcp(dg) else dg[:hdr] + b"forged payload")
+    for k, f in enumerate(forged):
+        P.ice["B"].queue.put_nowait(f)
+        P.loop.drain()
+        n += 1
+        if sink.total():
+            T.violation("tamper/forged-accepted", "tamper/forged-accepted",
+                        "an unauthenticated (plaintext / body-replaced) %s datagram #%d of %d bytes was handed to the application (profile %r)" % (
+                            "RTCP" if R.is_rtcp(f) else "RTP", k, len(f), names[0]), dict(kind="tamper", index=1000 + k, profile=names[0]))
+            sink.rtp.clear(), sink.rtcp.clear(), sink.data.clear()
     T.count("single-bit-flips", n)
     T.evaluations += n
     T.distinct += n
@@ -429,7 +448,7 @@ def run(tier, seed):
              "and refuses to send; keys: every ordered non-empty SRTP profile list on each side x both role assignments (connect iff "
              "the lists intersect) and then a battery each way (5 RTP packets incl. CSRC/padding and sequence/timestamp near the "
              "wrap, 4 RTCP compounds, 3 data messages) must arrive intact; tampering: EVERY single-bit flip of every protected battery "
-             "datagram (one run per SRTP profile) must be discarded, the transport stays up and valid traffic still flows. distinct "
+             "datagram (one run per SRTP profile) and forged plaintext / body-replaced RTP and RTCP datagrams must be discarded, the transport stays up and valid traffic still flows. distinct "
              "= distinct lists / matrix cells / flipped bits" % maxlen,
         assumptions=["handshakes are explored fault-free: OpenSSL's DTLS retransmission timer reads the wall clock, which the virtual "
                      "loop does not own", "payload values beyond the battery are not enumerated; data messages up to 1400 bytes (what "
